@@ -657,7 +657,10 @@ func LeafOut(scalar string, enum *TypeDef, v Val) (out interface{}, class string
 	case "Time":
 		switch v.K {
 		case "time":
-			t, _ := time.Parse(time.RFC3339Nano, v.S)
+			t, err := time.Parse(time.RFC3339Nano, v.S)
+			if err != nil {
+				return nil, "bad" // a year RFC 3339 can not write (beyond 9999, before 0)
+			}
 			return t.UTC().Format(time.RFC3339Nano), "ok"
 		case "string":
 			if t, err := time.Parse(time.RFC3339Nano, v.S); err == nil {
